@@ -51,6 +51,7 @@ pub fn run(ctx: &mut Ctx, suite: &str) {
         "c10r" => c12::run_upload_revoked(ctx),
         "c20w" => c04::run_c20w(ctx),
         "c01l" => c04::run_c01l(ctx),
+        "c01n" => c04::run_c01n(ctx),
         "c08s" => c12::run_stall(ctx),
         "c19" => c19::run(ctx),
         "c20" => c20::run(ctx),
@@ -68,7 +69,7 @@ pub fn replay(ctx: &mut Ctx, tag: &str, args: &[&str]) {
         "c01" | "c02" | "c03" | "c15r" | "c14r" => req::case(ctx, tag, args[0], args[1], args[2], args[3], args[4], args[5]),
         "c01s" => req::case_seq(ctx, args[0], args[1], args[2], args[3], args[4]),
         "c04" | "c09" | "c10" => c04::case(ctx, tag, args[0], args[1], args[2], args[3]),
-        "c05" => c05::case(ctx, args[0], args[1]),
+        "c05" => c05::case_m(ctx, args[0], args[1], args.get(2).copied().unwrap_or("")),
         "c06" | "c08" => c06::case(ctx, tag, args),
         "c07" => c07::case_f(ctx, args[0], args[1], args[2], args[3], args[4], args.get(5).copied().unwrap_or("-")),
         "c11" => c11::case(ctx, args[0]),
